@@ -206,7 +206,10 @@ class Check(BaseCheck):
         for j in range(spec['n']):
             hist, scripts = gen_history(rnd, spec['maxlen'])
             use_parser = (j % 50 == 7)
-            self.one(rec, hist, scripts, hotxlfp.Parser if use_parser else Emitter, 'parser' if use_parser else 'emitter')
+            if j % 50 == 23:
+                self.one(rec, hist, scripts, lambda: hotxlfp.Parser(debug=True), 'parser-debug')
+            else:
+                self.one(rec, hist, scripts, hotxlfp.Parser if use_parser else Emitter, 'parser' if use_parser else 'emitter')
 
     def one(self, rec, hist, scripts, cls, tag):
         rec.case()
